@@ -1250,6 +1250,8 @@ radius_pkt_chk(rad_pkt_hdr_p pkt, size_t pkt_size) {
 
 	if (NULL == pkt)
 		return (EINVAL);
+	if (RADIUS_PKT_HDR_SIZE > pkt_size)
+		return (EBADMSG);
 	if (RADIUS_PKT_HDR_LEN_GET(pkt) > pkt_size ||
 	    RADIUS_PKT_HDR_SIZE > RADIUS_PKT_HDR_LEN_GET(pkt) ||
 	    RADIUS_PKT_MAX_SIZE < RADIUS_PKT_HDR_LEN_GET(pkt))
